@@ -89,7 +89,7 @@ func init() {
 				h := 12 - idx/16
 				c05Run(w, c05Block{h: h, start: 0, n: (int64(1) << uint(h+1)) - 1, dup: true})
 			}})
-			fams = append(fams, mon.Family{Name: "all-indexes", N: len(blocks), Run: func(w *mon.W, idx int) { c05Run(w, blocks[idx]) }})
+			fams = append(fams, mon.Family{Name: "all-indexes", Env: 2, N: len(blocks), Run: func(w *mon.W, idx int) { c05Run(w, blocks[idx]) }})
 			return fams
 		},
 	})
